@@ -17,7 +17,8 @@ def scenario_args(sc, nshards, deadline_s):
     """sc: dict(scenario=..., p=, m=, backlog=, racer=, cycles=, glib=, bound=)"""
     base = []
     for k, v in sc.items():
-        base += ["--" + k, v]
+        if not k.startswith("_"):
+            base += ["--" + k, v]
     if deadline_s:
         base += ["--deadline-s", int(deadline_s)]
     return [base + ["--shard", i, "--nshards", nshards] for i in range(nshards)]
@@ -27,7 +28,7 @@ def run_scenarios(exe, scenarios, deadline_s=0, shards_per=None):
     """all shards of all scenarios in one pool; returns (per-scenario merged totals, failures)"""
     args, owner = [], []
     for si, sc in enumerate(scenarios):
-        n = shards_per or (vlib.NCPU if sc.get("bound", 2) >= 2 else 1)
+        n = sc.get("_shards") or shards_per or (vlib.NCPU if sc.get("bound", 2) >= 2 else 1)
         for a in scenario_args(sc, n, deadline_s):
             args.append(a); owner.append(si)
     parts = seqxrun.run_shards(exe, args, max(600, (deadline_s or 0) + 300))
@@ -57,7 +58,7 @@ def vs_check(prop, tier, scenarios, rule, assumptions, deadline_s, flavour="plai
             tot["counters"][k] = tot["counters"].get(k, 0) + v
         tot["violations"] += sc_tot["violations"]
         tot["samples"] += sc_tot["samples"][:1]
-        table.append({"scenario": " ".join("%s=%s" % kv for kv in sc.items()), "executions": sc_tot["cases"], "schedule_points": sc_tot["transitions"],
+        table.append({"scenario": " ".join("%s=%s" % (k, os.path.basename(str(v))) for k, v in sc.items() if not k.startswith("_")) + (" (%d histories)" % sc["_nhist"] if "_nhist" in sc else ""), "executions": sc_tot["cases"], "schedule_points": sc_tot["transitions"],
                       "distinct_outcomes_max_per_shard": sc_tot["distinct_outcomes"], "exhaustive": sc_tot["exhaustive"]})
         tot["distinct_outcomes"] += sc_tot["distinct_outcomes"]
         if min_outcomes and not fails and sc_tot["exhaustive"] and sc.get("p", 1) >= 2 and sc_tot["distinct_outcomes"] < min_outcomes:
@@ -75,8 +76,9 @@ def replay(prop, path):
     exe = build()
     case = json.load(open(path))["case"]
     args = []
-    for k in ("scenario", "p", "m", "backlog", "racer", "cycles", "glib"):
-        args += ["--" + k, case[k]]
+    for k in ("scenario", "p", "m", "backlog", "racer", "cycles", "glib", "hist", "racer-at"):
+        if k in case and case[k] != "":
+            args += ["--" + k, case[k]]
     import subprocess
     r = subprocess.run([exe] + [str(a) for a in args] + ["--replay", case["choices"]], capture_output=True, text=True, timeout=300)
     print(r.stderr[-6000:])
